@@ -29,9 +29,9 @@ struct FilterS { std::string pat; bool strict, invert; };
 struct PluginS { std::string name; bool enabled, err; };
 struct Prog {
     int repeat; bool reverse; bool shuffle; long seed; bool runIgnored;
-    std::vector<long> draws; bool haveDraws;
+    std::vector<long> draws; bool haveDraws; bool api;
     std::vector<FilterS> gf, nf; std::vector<PluginS> plugins; std::vector<TestS> tests;
-    Prog() : repeat(1), reverse(false), shuffle(false), seed(1), runIgnored(false), haveDraws(false) {}
+    Prog() : repeat(1), reverse(false), shuffle(false), seed(1), runIgnored(false), haveDraws(false), api(false) {}
 };
 static Prog* P;
 static const char* PHN[3] = {"setup", "body", "teardown"};
@@ -213,6 +213,45 @@ protected:
     TestOutput* createConsoleOutput() CPPUTEST_OVERRIDE { return new RecOutput; }
 };
 
+// "api" mode: the run is driven through TestRegistry's public API instead of the command line (setGroupFilters / setNameFilters with
+// filter objects that LIVE ACROSS RUNS at fixed addresses and are re-assigned, reverseTests, shuffleTests, setRunIgnored, runAllTests),
+// the way a program with its own main loop uses the registry; the repeat loop and return value follow CommandLineTestRunner::runAllTests.
+static TestFilter* filterPool[2][8];
+static const TestFilter* poolFilters(int which, const std::vector<FilterS>& fs)
+{
+    TestFilter* head = NULL;
+    for (size_t i = 0; i < fs.size() && i < 8; i++) {
+        if (!filterPool[which][i]) filterPool[which][i] = new TestFilter();
+        TestFilter* f = filterPool[which][i];
+        *f = TestFilter(fs[i].pat.c_str());
+        if (fs[i].strict) f->strictMatching();
+        if (fs[i].invert) f->invertMatching();
+        head = f->add(head);
+    }
+    return head;
+}
+static int runThroughApi(TestRegistry& registry)
+{
+    registry.setGroupFilters(poolFilters(0, P->gf));
+    registry.setNameFilters(poolFilters(1, P->nf));
+    if (P->runIgnored) registry.setRunIgnored();
+    UtestShell::setRethrowExceptions(false);
+    SetPointerPlugin pPlugin(DEF_PLUGIN_SET_POINTER);
+    registry.installPlugin(&pPlugin);
+    RecOutput output;
+    size_t failedTests = 0, failedExecutions = 0;
+    if (P->reverse) registry.reverseTests();
+    for (int r = 0; r < P->repeat; r++) {
+        if (P->shuffle) registry.shuffleTests((size_t) P->seed);
+        TestResult tr(output);
+        registry.runAllTests(tr);
+        failedTests += tr.getFailureCount();
+        if (tr.isFailure()) failedExecutions++;
+    }
+    registry.removePluginByName(DEF_PLUGIN_SET_POINTER);
+    return (int) (failedTests != 0 ? failedTests : failedExecutions);
+}
+
 static size_t drawPos;
 static int forcedRand() { long v = drawPos < P->draws.size() ? P->draws[drawPos] : 0; drawPos++; return (int) v; }
 static void noSrand(unsigned int) {}
@@ -257,19 +296,40 @@ static std::vector<std::pair<int,int> > parseSets(const std::string& s)
     return r;
 }
 
+// The shells of the previous program are kept and used again when the next program registers the same tests (same groups, names,
+// ignore flags, and the same run-ignored setting, which sticks to a shell): in a real program the shells are static objects that live
+// through every run made in the process, so state cached in them across runs with different filters must not change the selection.
+static std::vector<UtestShell*> keptShells;
+static std::vector<TestS>* keptTests = NULL;      // owns copies of the strings the kept shells point to
+static std::string keptSignature;
+static std::string signatureOf(const Prog* p)
+{
+    std::string s = p->runIgnored ? "R|" : "N|";
+    for (size_t i = 0; i < p->tests.size(); i++) s += p->tests[i].g + "\x01" + p->tests[i].n + (p->tests[i].ign ? "\x02" : "\x03");
+    return s;
+}
+
 static void runProgram()
 {
     emitProg();
     TestRegistry registry;
     theRegistry = &registry;
-    idxOf.clear(); idxByFormatted.clear(); fileNames.clear();
+    idxOf.clear(); idxByFormatted.clear();
     std::vector<UtestShell*> shells;
-    for (size_t i = 0; i < P->tests.size(); i++) { char b[32]; snprintf(b, sizeof b, "T%d.cpp", (int) i + 1); fileNames.push_back(b); }
+    bool reuse = !P->tests.empty() && signatureOf(P) == keptSignature && keptShells.size() == P->tests.size();
+    if (!reuse) {
+        for (size_t i = 0; i < keptShells.size(); i++) delete keptShells[i];
+        keptShells.clear(); delete keptTests; keptTests = new std::vector<TestS>(P->tests); keptSignature = signatureOf(P);
+        fileNames.clear();
+        for (size_t i = 0; i < P->tests.size(); i++) { char b[32]; snprintf(b, sizeof b, "T%d.cpp", (int) i + 1); fileNames.push_back(b); }
+    }
     for (size_t i = 0; i < P->tests.size(); i++) {
-        const TestS& t = P->tests[i];
+        const TestS& t = (*keptTests)[i];
         UtestShell* s;
-        if (t.ign) s = new ScriptedIgnoredShell((int) i + 1, t.g.c_str(), t.n.c_str(), fileNames[i].c_str(), 1000 * (i + 1));
+        if (reuse) s = keptShells[i];
+        else if (t.ign) s = new ScriptedIgnoredShell((int) i + 1, t.g.c_str(), t.n.c_str(), fileNames[i].c_str(), 1000 * (i + 1));
         else s = new ScriptedShell((int) i + 1, t.g.c_str(), t.n.c_str(), fileNames[i].c_str(), 1000 * (i + 1));
+        if (!reuse) keptShells.push_back(s);
         shells.push_back(s); idxOf[s] = (int) i + 1;
         idxByFormatted[std::string("TEST(") + t.g + ", " + t.n + ")"] = (int) i + 1;
         idxByFormatted[std::string("IGNORE_TEST(") + t.g + ", " + t.n + ")"] = (int) i + 1;
@@ -294,7 +354,8 @@ static void runProgram()
     for (int l = 0; l <= NLOC; l++) targets[l] = NULL;
     jmpBase = CppUTestVerif_JmpBufIndex(); g_rep = 0;
     int rv;
-    {
+    if (P->api) rv = runThroughApi(registry);
+    else {
         RecRunner runner((int) av.size(), &av[0], &registry);
         rv = runner.runAllTestsMain();
     }
@@ -302,7 +363,6 @@ static void runProgram()
     fprintf(out, "{\"op\":\"ret\",\"value\":%d,\"jmp\":%d}\n", rv, relJmp());
 
     for (size_t i = 0; i < plugins.size(); i++) delete plugins[i];
-    for (size_t i = 0; i < shells.size(); i++) delete shells[i];
     theRegistry = NULL;
 }
 
@@ -322,6 +382,7 @@ int main(int argc, char** argv)
         else if (f[0] == "cfg" && f.size() >= 6) {
             P->repeat = atoi(f[1].c_str()); P->reverse = f[2] == "1"; P->shuffle = f[3] != "-"; P->seed = P->shuffle ? atol(f[3].c_str()) : 1;
             P->runIgnored = f[4] == "1";
+            P->api = f.size() > 6 && f[6] == "api";
             if (f[5] != "-") { P->haveDraws = true; std::vector<std::string> d = vh_split(f[5], ','); for (size_t i = 0; i < d.size(); i++) if (!d[i].empty()) P->draws.push_back(atol(d[i].c_str())); }
         }
         else if ((f[0] == "gf" || f[0] == "nf") && f.size() >= 4) { FilterS x; x.pat = f[1]; x.strict = f[2] == "1"; x.invert = f[3] == "1"; (f[0] == "gf" ? P->gf : P->nf).push_back(x); }
